@@ -48,6 +48,25 @@ def kSelected (frozen free : Nat → Bool) (j : Nat) : Bool := frozen j || free 
 /-- `np.where(mask)[0]` -/
 def idx (n : Nat) (mask : Nat → Bool) : List Nat := (List.range n).filter mask
 
+/-! ### explicit `frozen_states`
+
+  The mask arrays have one row per IRREDUCIBLE k-point (`kptirr`, global k-point indices; `arange(NK)` without site
+  symmetry).  A list applies to every row; a dictionary is keyed by the GLOBAL k-point index:
+  `if ik in kptirr: iki = np.where(kptirr == ik)[0][0]; frozen[iki, ib] = True`. -/
+
+inductive FrozenStates where
+  | all (bands : List Nat)                       -- `frozen_states = [ib, ...]`
+  | perK (entries : List (Nat × List Nat))       -- `frozen_states = {ik: [ib, ...], ...}`, `ik` a global index
+
+/-- the explicitly frozen bands of row `iki` of the mask array -/
+def explicitFrozen (fs : FrozenStates) (kptirr : List Nat) (iki : Nat) : List Nat :=
+  match fs with
+  | .all l => l
+  | .perK d =>
+    match kptirr[iki]? with
+    | some ik => (d.filter (fun e => e.1 == ik)).flatMap (fun e => e.2)
+    | none => []
+
 /-! ### the embedding and the returned matrix (any scalar type) -/
 
 section
@@ -223,6 +242,13 @@ def handle : List String → String
       maskStr n fz ++ "|" ++ maskStr n sl ++ "|" ++ maskStr n fr ++ "|" ++ maskStr n (kSelected fz fr)
         ++ "|" ++ showBool (assertOK n sl fz)
     | _, _, _, _, _, _, _ => "bad-op"
+  -- explicit <all|dict> <bands | ik,b1,b2;ik,b1,...> <kptirr>  ->  explicitly frozen bands per row of the mask array
+  | ["explicit", form, data, kirr] =>
+    match parseNatss? data, parseNats? kirr with
+    | some d, some kirr =>
+      let fs : FrozenStates := if form == "all" then .all (d.getD 0 []) else .perK (d.map fun e => (e.getD 0 0, e.drop 1))
+      showNatss ((List.range kirr.length).map fun iki => explicitFrozen fs kirr iki)
+    | _, _ => "bad-op"
   -- embed <nb> <nw> <fz> <fr> <Uf rows>  ->  the nb × nw matrix
   | ["embed", nb, nw, fz, fr, uf] =>
     match parseNat? nb, parseNat? nw, parseNats? fz, parseNats? fr, parseRatss? uf with
